@@ -70,19 +70,28 @@ fn confirm(ctx: &Ctx, v: &ViolationRec) -> Result<Value, MachineryError> {
         let o = ctx.pool.run(&[Req { mode: v.case.mode, label: "case.sd", src: &v.case.src }])?;
         batch.push(o.into_iter().next().unwrap());
     }
+    let hang = batch[0].class == subject::Class::Hang;
     if batch[0].class != batch[1].class
-        || batch[0].stdout != batch[1].stdout
-        || batch[0].msg != batch[1].msg
+        || (!hang && (batch[0].stdout != batch[1].stdout || batch[0].msg != batch[1].msg))
     {
         return Err(MachineryError(format!(
-            "nondeterministic replay of a violation ({}): {:?} vs {:?}",
-            v.case.src, batch[0], batch[1]
+            "nondeterministic replay of a violation ({}): {:?} {:?} vs {:?} {:?}",
+            v.case.src, batch[0].class, trunc(&batch[0].msg), batch[1].class, trunc(&batch[1].msg)
         )));
     }
     let mut cli_json = Value::Null;
     if v.case.mode == Mode::Run {
         let c1 = subject::run_cli_simple(&ctx.bin, v.case.src.as_bytes())?;
         let c2 = subject::run_cli_simple(&ctx.bin, v.case.src.as_bytes())?;
+        if hang {
+            if !c1.timed_out && c1.signal != Some(9) {
+                return Err(MachineryError(format!(
+                    "batch run hangs but the CLI run ends ({})",
+                    v.case.src
+                )));
+            }
+            return Ok(json!({"timed_out": true}));
+        }
         if c1.code != c2.code || c1.stdout != c2.stdout || strip_tid(&c1.stderr_str()) != strip_tid(&c2.stderr_str()) {
             return Err(MachineryError(format!(
                 "nondeterministic CLI replay of a violation ({})",
@@ -102,6 +111,10 @@ fn confirm(ctx: &Ctx, v: &ViolationRec) -> Result<Value, MachineryError> {
         });
     }
     Ok(cli_json)
+}
+
+fn trunc(s: &str) -> String {
+    s.chars().take(300).collect()
 }
 
 fn strip_tid(s: &str) -> String {
